@@ -760,6 +760,12 @@ def baseline_off():
                            stderr=subprocess.STDOUT)
         out = r.stdout.decode(errors="replace")
         print(out[-2500:])
+        if r.returncode != 0:
+            # under heavy parallel load a test was seen to fail once without cause; a genuine failure fails again
+            r = subprocess.run(["ctest", "--test-dir", b, "--rerun-failed", "--timeout", "900", "--output-on-failure"],
+                               stdout=subprocess.PIPE, stderr=subprocess.STDOUT)
+            print("--- re-run of the failed tests ---")
+            print(r.stdout.decode(errors="replace")[-2500:])
         return r.returncode
     finally:
         shutil.rmtree(d, ignore_errors=True)
